@@ -98,10 +98,16 @@ impl PbufW {
         });
         match r {
             Ok(mut v) => {
-                v["empty"] = json!(self.pb.is_empty());
-                v["full"] = json!(self.pb.is_full());
-                v["pbytes"] = json!(self.pb.payload_bytes_count());
-                v
+                let o = guarded(|| (self.pb.is_empty(), self.pb.is_full(), self.pb.payload_bytes_count()));
+                match o {
+                    Ok((e, f, b)) => {
+                        v["empty"] = json!(e);
+                        v["full"] = json!(f);
+                        v["pbytes"] = json!(b);
+                        v
+                    }
+                    Err(m) => json!({"ev":"panic","op":op,"size":size,"w":w,"msg":format!("observer: {}", m)}),
+                }
             }
             Err(m) => {
                 self.tok = tok0;
